@@ -147,6 +147,73 @@ def check(run):
                     run.sample({'case': name, 'scenario': scenario, 'primitive_boundaries_probed': stats['points'], 'recorded': [e[0] for e in rec.events][:40]})
                 core.rm_rf(jd)
         # the pack rewrite and `jug pack` themselves
+        # a write that FAILS instead of being killed: the value cannot be pickled, or a primitive of the write reports an error (disk full, quota, I/O
+        # error). The exception reaches the caller; afterwards the key must not be loadable (fresh key) or still hold its old value, the other key is intact,
+        # nothing but stray temporary files is left
+        import errno as _errno
+
+        class _Unpicklable:
+            def __reduce__(self):
+                raise RuntimeError('cannot pickle this on purpose')
+        fail_values = [('unpicklable', [1, _Unpicklable()]), ('pickle', list(range(5000))), ('small-dict', {'a': 'b' * 100}), ('array', np.arange(3000.0)), ('zeros', np.zeros(40000)),
+                       ('text', 'x' * 20000)]
+        for name, value in fail_values:
+            for scenario in ('fresh', 'overwrite-loose', 'overwrite-packed'):
+                for compress in ((False, True) if name in ('array', 'zeros') else (False,)):
+                    # the k-th data primitive (write / flush / fsync on the temporary file) of the write fails, for every k; k = 0: no injection (unpicklable value)
+                    k = 0 if name == 'unpicklable' else 1
+                    while k < 12:
+                        jd = os.path.join(scratch, 'f-%s-%s-%s-%d' % (name, scenario, compress, k))
+                        s0 = file_store(jd, compress_numpy=compress)
+                        s0.dump('other-key-value', D.KEY2)
+                        if scenario != 'fresh':
+                            s0.dump(['old', 1], D.KEY)
+                        if scenario == 'overwrite-packed':
+                            s0.update_pack()
+                        nth = {'n': 0, 'fired': None}
+
+                        def hook(prim, path, *extra, nth=nth, k=k):
+                            if prim in ('write', 'flush', 'fsync') and isinstance(path, str) and 'tempfiles' in path and not (prim == 'write' and extra and extra[0] == 0):
+                                nth['n'] += 1
+                                if nth['n'] == k:
+                                    nth['fired'] = prim
+                                    raise OSError(_errno.ENOSPC if prim != 'fsync' else _errno.EIO, 'injected failure of %s' % prim)
+                        store = file_store(jd, compress_numpy=compress)
+                        from jugverif import fsgate
+                        # the temporary file is wrapped in a plain proxy: NumPy then writes the array data through write() too, so that a failure can be placed between
+                        # the header and the data (with a real file object that write happens inside NumPy: `tofile`)
+                        undo = fsgate.install(hook, wrap_files=True, plain_proxy=True)
+                        raised = None
+                        try:
+                            store.dump(value, D.KEY)
+                        except BaseException as e:
+                            raised = e
+                        finally:
+                            undo()
+                        if k and nth['fired'] is None:
+                            core.rm_rf(jd)
+                            break           # the write has fewer than k data primitives
+                        rp = {'kind': 'failing-write', 'case': name, 'scenario': scenario, 'compress': compress, 'failing_primitive': [k, nth['fired']]}
+                        run.case(('failing-write', name, scenario, compress, k), nontrivial=True)
+                        run.count('failing_writes')
+                        view, listing = D.reader_view(jd, [D.KEY, D.KEY2], compress)
+                        what = 'the value cannot be pickled' if not k else 'data primitive number %d of the write (%s) failed with an I/O error' % (k, nth['fired'])
+                        if raised is None:
+                            # the store may recover by itself (write the value another way) - then the value must be there, exactly
+                            if view.get(D.KEY) != vcanon(value):
+                                run.fail('failed-write-corrupt', 'dump of %s (%s): %s; dump() returned normally, and the key now loads as %s instead of the value written'
+                                         % (name, scenario, what, str(view.get(D.KEY))[:100]), rp)
+                        else:
+                            want = vcanon(['old', 1]) if scenario != 'fresh' else None
+                            if view.get(D.KEY) != want:
+                                run.fail('failed-write-visible', 'dump of %s (%s): %s and dump() raised %s; afterwards the key loads as %s, expected %s'
+                                         % (name, scenario, what, type(raised).__name__, str(view.get(D.KEY))[:80], 'the old value' if want else 'no result'), rp)
+                        if view.get(D.KEY2) != vcanon('other-key-value'):
+                            run.fail('failed-write-damage', 'dump of %s (%s): %s; another key was damaged: %s' % (name, scenario, what, str(view.get(D.KEY2))[:80]), rp)
+                        core.rm_rf(jd)
+                        if not k:
+                            break
+                        k += 1
         # ... and every other operation that rewrites the pack file: removal of a packed key, removal of a loose key of a packed store
         # (remove_many always rewrites the pack), cleanup pruning an inactive packed entry
         KEY3 = b'efkey0000000000000000000000000000000000'
